@@ -9,12 +9,15 @@ import fcntl, hashlib, json, os, random, re, shutil, subprocess, sys, time
 
 VERIF = os.path.dirname(os.path.dirname(os.path.abspath(__file__)))
 REPO = os.environ.get("VERIF_REPO", "/repo")
-LEAN = os.path.join(VERIF, "lean")
+LEAN_SRC = os.path.join(VERIF, "lean")
 BUILD_ROOT = os.path.join(VERIF, "build")
 # artefacts built from a scratch worktree (VERIF_REPO=…) live in their own directory so that concurrent
 # runs against different trees do not overwrite each other's harness binaries
 BUILD = BUILD_ROOT if REPO == "/repo" else os.path.join(BUILD_ROOT, "alt_" + hashlib.sha1(REPO.encode()).hexdigest()[:8])
-EVID = os.path.join(VERIF, "evidence")
+# a run against a scratch worktree (seeded change, candidate fix) never touches the Lean project, the Gen files or the
+# evidence of the real tree: it works on a private copy of the Lean project (with its compiled files) under build/alt_*/
+LEAN = LEAN_SRC if REPO == "/repo" else os.path.join(BUILD, "lean")
+EVID = os.path.join(VERIF, "evidence") if REPO == "/repo" else os.path.join(BUILD, "evidence")
 REPLAY = os.path.join(BUILD, "replay")
 NCPU = os.cpu_count() or 4
 
@@ -58,7 +61,8 @@ class flock:
     def __init__(self, name):
         os.makedirs(BUILD_ROOT, exist_ok=True)
         os.makedirs(BUILD, exist_ok=True)
-        self.path = os.path.join(BUILD_ROOT if name == "lake" else BUILD, "." + name + ".lock")
+        self.path = os.path.join(BUILD_ROOT if name in ("lake", "lakesrc") and (LEAN == LEAN_SRC or name == "lakesrc") else BUILD,
+                                 "." + ("lake" if name == "lakesrc" else name) + ".lock")
 
     def __enter__(self):
         self.f = open(self.path, "w")
@@ -84,8 +88,24 @@ def write_if_changed(path, content):
 
 # ----------------------------------------------------------------- Lean side
 
+_alt_synced = False
+
+
+def sync_alt_lean():
+    """scratch-worktree runs: refresh the private copy of the Lean project from /verif/lean (sources and compiled
+    files; taken under the main project's build lock so that no half-written .olean is copied)"""
+    global _alt_synced
+    if LEAN == LEAN_SRC or _alt_synced:
+        return
+    os.makedirs(LEAN, exist_ok=True)
+    with flock("lakesrc"):
+        sh(["rsync", "-a", "--delete", LEAN_SRC + "/", LEAN + "/"])
+    _alt_synced = True
+
+
 def lake_build(targets, timeout=3000):
     """Build lake targets under a global lock (checks may run in parallel)."""
+    sync_alt_lean()
     with flock("lake"):
         r = sh(["lake", "build"] + list(targets), cwd=LEAN, timeout=timeout)
     out = r.stdout + r.stderr
